@@ -94,6 +94,10 @@ pub trait Scenario: Sync {
     /// execute; report the first violation of `target` (others are counted in stats.other)
     fn execute(&self, p: &Program, target: &str, st: &mut Stats) -> Option<Violation>;
     fn rule(&self) -> &'static str;
+    /// rare conditions the workload is meant to reach for this target (reported even when at zero)
+    fn expected_probes(&self, _target: &str) -> &'static [&'static str] {
+        &[]
+    }
     fn components_real(&self) -> &'static [&'static str];
     fn components_stub(&self) -> &'static [&'static str];
 }
